@@ -54,6 +54,10 @@ func (e *Engine) encodeFunction(name string) (fe *FuncEnc, err error) {
 	if len(fn.Blocks) == 0 {
 		return fe, nil
 	}
+	if fe.con != nil && fe.con.Unreachable != "" {
+		e.unverified = append(e.unverified, name+": "+fe.con.Unreachable)
+		return fe, nil
+	}
 	f := fe.newFrame(fn, nil, "")
 	fe.cur = f
 	st := &State{heap: map[string]Term{}}
@@ -94,6 +98,10 @@ func (e *Engine) encodeFunction(name string) (fe *FuncEnc, err error) {
 	if fn.Name() == "init" || name == "main.main" {
 		// process start: nothing consumed from stdin yet
 		fe.assume(tBool(true), tAnd(tEq(fe.comp(st, "G_io_InPos", SInt), tInt(0)), tEq(fe.comp(st, "G_io_Delivered", SInt), tInt(0)), tLe(tInt(0), fe.comp(st, "G_io_InLines", SInt))))
+	}
+	// a method receiver is a complete object: its type invariant holds
+	if fn.Signature.Recv() != nil && len(fn.Params) > 0 {
+		fe.typeInvAssume(f, f.vals[fn.Params[0]], fn.Params[0].Type(), tNot(tEq(f.vals[fn.Params[0]], tInt(0))), st)
 	}
 	fe.initMonitor(f, st)
 	// nothing runs after the process has exited
@@ -719,7 +727,7 @@ func (e *Engine) report(prop, tier string, obls []*Obl, encs []*FuncEnc, engineE
 				"obligations": len(obls) - knownN - covers, "discharged": discharged, "vacuity_guards_checked": covers, "unreachable_paths": deadPaths, "checker_cmd": "./check " + prop + " " + tier,
 				"trusted_base": tb, "functions_under_contract": under, "functions_touched": len(funcsUnder),
 				"inlined": sortStrings(inlined), "bounded": []string{}, "by_backend": byBackend, "solver_time_s": round3(solverTime),
-				"known_findings": knownList, "failed": failed, "engine_errors": engineErrs, "samples": samples,
+				"known_findings": knownList, "declared_unreachable_not_verified": e.unverified, "failed": failed, "engine_errors": engineErrs, "samples": samples,
 				"not_decided": notDecided[prop],
 			},
 			"assumptions": append(sortStrings(assumes), globalAssumptions...),
@@ -797,6 +805,14 @@ func (e *Engine) ifaceContractFor(fn *ssa.Function) (*Contract, *types.Signature
 			}
 		}
 		if iface == nil || msig == nil || !types.Implements(recv.Type(), iface) {
+			continue
+		}
+		// an interface contract binds the implementations of its own package (ast.Expr is merely `String() string`)
+		rt := recv.Type()
+		if pt, ok := rt.(*types.Pointer); ok {
+			rt = pt.Elem()
+		}
+		if nt, ok := rt.(*types.Named); !ok || nt.Obj().Pkg() == nil || nt.Obj().Pkg().Name() != ifaceName[:j] {
 			continue
 		}
 		return con, msig
